@@ -83,7 +83,7 @@ func TestMaintRace(t *testing.T) {
 				}
 				lg.Add(inst.Event{Ev: "cfg", Data: map[string]any{
 					"gw": int64(cfg.T.gw / time.Millisecond), "gi": int64(cfg.T.gi / time.Millisecond), "ri": int64(cfg.T.ri / time.Millisecond),
-					"integs": cfg.Integs, "inhibit": false, "rt": int64(resolveTimeout / time.Millisecond), "windows": []inst.Window{}, "wait": 0, "maxwait": 0,
+					"integs": cfg.Integs, "inhibit": false, "rt": int64(resolveTimeout / time.Millisecond), "windows": []inst.Window{}, "mute": []tiv{}, "active": []tiv{}, "gkp": "{}", "wait": 0, "maxwait": 0,
 				}})
 				if err := in.Reload(cfg.yaml(cfg.Integs)); err != nil {
 					t.Fatal(err)
